@@ -857,7 +857,8 @@ class ktensor:
 
         # Try to fix the signs for each component
         best_sign = np.zeros((N, RA))
-        for r in range(RB):
+        # Components are matched by position; surplus ones on either side are left alone
+        for r in range(min(RA, RB)):
             # Compute the inner products. They should mostly be O(1) if there is a
             # good match because the factors have prevsiouly been normalized. If
             # the signs are correct, then the score should be +1. Otherwise we need
